@@ -17,6 +17,10 @@ from fractions import Fraction
 from .fold import Arr, Obj, Opaque, Sym, TypeTag, canon_index, Refuse
 
 
+# methods a rule declares to act row by row on a 2-d argument (set by the rule around its comparisons): m(np.array([r0, r1]))[k] is m(r_k)
+ROWWISE: set = set()
+
+
 def nf(v):
     if isinstance(v, Sym):
         return _sym(v)
@@ -78,6 +82,18 @@ def _sym(v: Sym):
         v = Sym(f"{v.recv.label}.{v.attr}", v.args, v.kw)
         fn = v.fn
     if v.attr == "[]" and v.recv is not None:
+        if ROWWISE and v.index is not None and v.index[0] == "value" and isinstance(v.index[1], int) and not isinstance(v.index[1], bool) \
+                and isinstance(v.recv, Sym) and v.recv.attr in ROWWISE and len(v.recv.args) == 1 and not v.recv.kw:
+            rows = v.recv.args[0]
+            if isinstance(rows, Sym) and rows.fn in ("np.array", "np.asarray", "np.vstack", "np.stack") and rows.args and isinstance(rows.args[0], (list, tuple)) and not rows.kw:
+                rows = rows.args[0]
+            elif isinstance(rows, Sym) and isinstance(rows.recv, Opaque) and rows.recv.tag == "callable" and rows.attr in ("array", "asarray", "vstack", "stack") \
+                    and rows.args and isinstance(rows.args[0], (list, tuple)) and not rows.kw:
+                rows = rows.args[0]
+            if isinstance(rows, Arr):
+                rows = rows.data
+            if isinstance(rows, (list, tuple)) and 0 <= v.index[1] < len(rows) and isinstance(rows[v.index[1]], (list, tuple, Sym, Opaque)):
+                return nf(Sym(v.recv.fn, [rows[v.index[1]]], recv=v.recv.recv, attr=v.recv.attr))
         if v.index is not None:
             try:
                 return f"{nf(v.recv)}[{_index(v.index)}]"
